@@ -3,7 +3,7 @@ import vlib
 from checks import osfam
 GUARDS = {"WellFormedSucceeds", "LiveAccessible", "NoOverlap", "ContentsKept.gen", "ContentsKept.bytes", "ObsOfLiveBlock", "CheckAllComplete",
           "DestructiveAvoidsLive", "AllReleased", "DirtyAllReleased", "QuiesceNoLive", "FailedReallocKeepsOld", "Invariant.Inv", "MmapFresh",
-          "ZeroOK", "UsableAtLeastRequested", "AlignOK"}
+          "ZeroOK", "UsableAtLeastRequested", "AlignOK", "OutParamUnchanged"}
 SETTINGS = [("default", {}), ("tiny", {"MIMALLOC_ARENA_RESERVE": "32768"}),
             ("lazy", {"MIMALLOC_EAGER_COMMIT": "0", "MIMALLOC_ARENA_EAGER_COMMIT": "0"}), ("noarena", {"MIMALLOC_DISALLOW_ARENA_ALLOC": "1"})]
 KINDS = {0: "any", 1: "map", 2: "unmap", 3: "protect", 4: "advise"}
